@@ -16,6 +16,8 @@ var Checks = map[string]func(tier string, seed uint64) int{
 	"C05": C05,
 	"C06": C06,
 	"C08": C08,
+	"C12": C12,
+	"C19": C19,
 }
 
 // Generators maps property ids to their case generators (debug aid).
@@ -26,6 +28,8 @@ var Generators = map[string]func(seed uint64, i int) *world.Case{
 	"C05": GenC05,
 	"C06": GenC06,
 	"C08": GenC08,
+	"C12": GenC12,
+	"C19": GenC19,
 }
 
 // Replay re-runs a replay file in a fresh process and reports whether the
@@ -62,3 +66,36 @@ func Replay(path string) int {
 }
 
 // SelfTest is defined in selftest.go.
+
+// RunCaseFile runs a bare case file (debug aid) and prints the outcome.
+func RunCaseFile(path string) int {
+	b, err := os.ReadFile(path)
+	if err != nil {
+		fmt.Fprintln(os.Stderr, err)
+		return 2
+	}
+	var c world.Case
+	if err := json.Unmarshal(b, &c); err != nil {
+		fmt.Fprintln(os.Stderr, err)
+		return 2
+	}
+	c.WantEvents = true
+	o := RunCase(&c, RunOpts{})
+	fmt.Printf("verdict=%s class=%s detail=%s\n", o.Verdict, o.Class, o.Detail)
+	for _, st := range o.Steps {
+		fmt.Printf("  step %s %s %s err=%q rows=%d t=%v\n", st.Path, st.Op, st.ID, st.Err, st.NRows, st.SimNs)
+	}
+	fmt.Printf("fired=%v probes=%v sim=%.1fs events=%d\n", o.Fired, o.Probes, float64(o.SimNs)/1e9, o.NEvents)
+	if os.Getenv("VERIF_SHOW_EVENTS") != "" {
+		for _, e := range o.Events {
+			fmt.Println("  ev:", e)
+		}
+	}
+	for _, l := range o.LogTail {
+		fmt.Println("  log:", l)
+	}
+	if o.Stack != "" {
+		fmt.Println(o.Stack)
+	}
+	return 0
+}
